@@ -245,6 +245,9 @@ def directed(rng):
                                                                   dict(a='notify', **{'from': 'm2.1'}) if v != 1 else dict(a='callback', c='cbA', **{'from': 'm2.1'}), D, hret('m1.1'), D]
                                                                  + [[dict(a='notify', **{'from': 'm3.1'}), D], [dict(a='notify', **{'from': 'm3.1'}), D], [dict(a='stop'), D]][v]
                                                                  + [dict(a='unhold'), D] + ([S(reply(1))] if v == 1 else []) + [hret('m2.1'), hret('m3.1'), D])
+        # the context of a callback ends just after the reader has handed it its reply (at the reader's log line there): the reply it is
+        add('cb-reply-then-ctxend-%d' % v, P, [dict(a='callback', c='cbA'), D, dict(a='logcancel', kind='Received response for callback', c='cbA'), S(reply(1, v)), D,
+                                              dict(a='callback', c='cbC'), D, S(reply(2, v + 1)), D])
         add('cb-note-%d' % v, P, [S(note()), D, dict(a='callback', c='cbA', **{'from': 'm1.1'}), S(call(1)), D, S(reply(1, v)), D, hret('m1.1'), D, hret('m2.1'), D])
         add('cb-two-%d' % v, P, [dict(a='callback', c='cbA'), dict(a='callback', c='cbB'), D, S(reply(2, v)), D, S(reply(1)), D])
         add('cb-stop-%d' % v, P, [dict(a='callback', c='cbA'), D, dict(a='stop'), D, dict(a='callback', c='cbB'), dict(a='notify'), D])
